@@ -10,9 +10,9 @@ observation, satisfies the clause for every state, caller, operation and oracle 
 clause that fires on the code is a disagreement with the statement *and* with the model, never
 an artefact of the clause.
 
-Proved here: C01 `denied_noeffect`, `effect_only_if_granted`, `list_exact`, `changes_only_granted`; C02 `reads`, `frame`, `delete_version`, `active`, `bytes_stable` (and
+Proved here: C01 `denied_noeffect`, `effect_only_if_granted`, `list_exact`, `changes_only_granted`; C02 `inv`, `reads`, `frame`, `delete_version`, `active`, `bytes_stable` (and
 `reads_total`, `failed_noop` in Properties/C02.lean); C04 `mem_eq_disk`, `savefail_noop`; C06 `recorded`, `before_effect`, `fail_closed`, `unchanged_silent`;
-C09 `cond`; C18 `acknowledged_bytes_kept` (under the store invariant).  Not yet proved of the model: C02 `inv`, `put`; C04 `gen_iff_saved`
+C09 `cond`; C18 `acknowledged_bytes_kept` (under the store invariant).  Not yet proved of the model: C02 `put`; C04 `gen_iff_saved`
 (their content is stated as theorems about the model in the property files, in other words).
 -/
 namespace Setec.MonSound
@@ -693,5 +693,102 @@ theorem c18_bytes_kept_sound (kv : KV) (c : Caller) (op : Op) (aok sok : Bool) (
           · rw [e]; exact versions_kept kv op sok h n s hn k b hk hd1 hd2
         obtain ⟨s', h1, h2⟩ := hpost
         simp [h1, h2]
+
+/-- names are never empty (put and activate refuse the empty name before anything else) -/
+def NameInv (kv : KV) : Prop := ∀ (n : String) (s : Secret), kv.secrets[n]? = some s → n ≠ ""
+
+theorem only_put_creates (kv : KV) (op : Op) (sok : Bool) (hput : ∀ n v, op ≠ .put n v) (m : String) (s' : Secret)
+    (h' : (kvPost Cfg.std kv op sok).secrets[m]? = some s') : ∃ s, kv.secrets[m]? = some s := by
+  cases op with
+  | put n v => exact absurd rfl (hput n v)
+  | activate n v =>
+    simp only [kvPost] at h'
+    by_cases hmn : n = m
+    · subst hmn
+      cases hd : setActive kv n v sok with
+      | mk kv' r =>
+        rw [hd] at h'
+        cases r with
+        | error er => have := setActive_error_noop kv n v sok er kv' hd; subst this; exact ⟨s', h'⟩
+        | ok u => obtain ⟨s1, _, h1, _⟩ := setActive_ok kv n v sok kv' hd; exact ⟨s1, h1⟩
+    · rw [setActive_frame kv n m v sok hmn] at h'; exact ⟨s', h'⟩
+  | deleteVersion n v =>
+    simp only [kvPost] at h'
+    by_cases hmn : n = m
+    · subst hmn
+      cases hd : deleteVersion kv n v sok with
+      | mk kv' r =>
+        rw [hd] at h'
+        cases r with
+        | error er => have := deleteVersion_error_noop kv n v sok er kv' hd; subst this; exact ⟨s', h'⟩
+        | ok u => obtain ⟨s1, _, h1, _⟩ := deleteVersion_ok kv n v sok kv' hd; exact ⟨s1, h1⟩
+    · rw [deleteVersion_frame kv n m v sok hmn] at h'; exact ⟨s', h'⟩
+  | delete n =>
+    simp only [kvPost] at h'
+    by_cases hmn : n = m
+    · subst hmn
+      cases hd : deleteSecret kv n sok with
+      | mk kv' r =>
+        rw [hd] at h'
+        cases r with
+        | error er => have := deleteSecret_error_noop kv n sok er kv' hd; subst this; exact ⟨s', h'⟩
+        | ok u => have := deleteSecret_gone kv n kv' sok hd; simp only at h'; rw [this] at h'; cases h'
+    · rw [deleteSecret_frame kv n m sok hmn] at h'; exact ⟨s', h'⟩
+  | _ => exact ⟨s', h'⟩
+
+theorem step_nameInv (kv : KV) (c : Caller) (op : Op) (aok sok : Bool) (h : Inv kv) (hn : NameInv kv) :
+    NameInv (step Cfg.std kv c op aok sok).1 := by
+  intro m s' h'
+  rcases step_state Cfg.std kv c op aok sok with e | e
+  · rw [e] at h'; exact hn m s' h'
+  · by_cases hput : ∃ n v, op = .put n v
+    · obtain ⟨n, v, rfl⟩ := hput
+      by_cases hmn : n = m
+      · subst hmn
+        intro hempty
+        subst hempty
+        -- put "" is refused before anything else: the state is the old one
+        have : (step Cfg.std kv c (.put "" v) aok sok).1 = kv := by simp [step]
+        rw [this] at h'
+        exact hn "" s' h' rfl
+      · rw [e] at h'
+        simp only [kvPost, std_guardPresent] at h'
+        rw [put_frame true kv n m v sok h hmn] at h'
+        exact hn m s' h'
+    · rw [e] at h'
+      obtain ⟨s, hs⟩ := only_put_creates kv op sok (fun n v e => hput ⟨n, v, e⟩) m s' h'
+      exact hn m s hs
+
+theorem secInv_of_SecInv (s : Secret) (h : SecInv s) : secInv s = true := by
+  obtain ⟨ha, hall⟩ := h
+  simp only [secInv, Bool.and_eq_true, decide_eq_true_eq, List.all_eq_true]
+  refine ⟨⟨by simpa using ha, (hall s.active ha).1⟩, ?_⟩
+  intro k hk
+  have hk' : k ∈ s.versions := ExtTreeMap.mem_keys.mp hk
+  have := hall k hk'
+  simp [this.1, this.2]
+
+theorem c02_inv_sound (kv : KV) (c : Caller) (op : Op) (aok sok : Bool) (h : Inv kv) (hn : NameInv kv) :
+    c02_inv (obsOf kv c op aok sok) = true := by
+  simp only [c02_inv, obsOf, stateInv, List.all_eq_true]
+  rintro ⟨m, s⟩ hp
+  have hm := (ExtTreeMap.mem_toList_iff_getElem?_eq_some (t := (step Cfg.std kv c op aok sok).1.secrets) (k := m) (v := s)).mp hp
+  have h1 := step_inv Cfg.std kv c op aok sok h m s hm
+  have h2 := step_nameInv kv c op aok sok h hn m s hm
+  simp [secInv_of_SecInv s h1, h2]
+
+
+theorem run_nameInv (kv : KV) (h : Inv kv) (hn : NameInv kv) (xs : List Call) : NameInv (run Cfg.std kv xs) := by
+  induction xs generalizing kv with
+  | nil => exact hn
+  | cons x xs ih =>
+    exact ih _ (step_inv Cfg.std kv x.caller x.op x.auditOk x.saveOk h) (step_nameInv kv x.caller x.op x.auditOk x.saveOk h hn)
+
+/-- `inv` holds of the specification's step in every reachable state -/
+theorem c02_inv_sound_reachable (xs : List Call) (c : Caller) (op : Op) (aok sok : Bool) :
+    c02_inv (obsOf (run Cfg.std KV.empty xs) c op aok sok) = true :=
+  c02_inv_sound _ c op aok sok (run_inv Cfg.std KV.empty inv_empty xs)
+    (run_nameInv KV.empty inv_empty (by intro n s h; simp [KV.empty] at h) xs)
+
 
 end Setec.MonSound
